@@ -76,6 +76,8 @@ def run(ctx):
         for c in v["viol"]:
             if c != "C18":
                 ctx.other.append({"clause": c, "id": sc["id"], "driver": drv})
+    from .. import combo
+    combo.run(ctx, binary, {"C18"}, 40 if quick else 400, "C18")
     ctx.sample({"scenario": scs[0]["id"], "files": {"/".join(e["p"]): len(e.get("meta", {}).get("data", b"")) for e in scs[0]["fs0"]}, "argv_extra": scs[0]["extra"]})
     ctx.sample({"verdict": verdicts[0], "events_excerpt": [r for r in res[0][1] if r.get("ev") in ("sync", "data")][:10]})
     ctx.rule = ("trees of multi-block files (block sizes 100..2048 giving 1..40 blocks per file, empty and 1-byte files, 30 single-block files), "
